@@ -463,6 +463,57 @@ func run11(c drv.Case, res *drv.Result) {
 			mains[string(mode)] = strings.Join(ks, " ")
 		}
 	}
+	// ---- store faults: one store call of the commit fails (no gating); a commit that still reports success must have
+	// produced the reference merge, a commit that reports the failure is not judged here (C12 covers what it leaves)
+	if len(res.Violations) == 0 {
+		dryEnv := base.Clone()
+		da := memstore.NewActor("dry")
+		if _, err := dryEnv.Commit(da, "r", d.DiamondID, model.EnableConflicts); err == nil {
+			ncalls, _ := da.Calls()
+			pts := []int{}
+			for k := 1; k <= ncalls; k++ {
+				pts = append(pts, k)
+			}
+			if len(pts) > 24 {
+				r.Shuffle(len(pts), func(i, j int) { pts[i], pts[j] = pts[j], pts[i] })
+				pts = pts[:24]
+			}
+			for _, k := range pts {
+				k := k
+				mode := []model.ConflictMode{model.IgnoreConflicts, model.EnableConflicts, model.EnableCheckpoints}[k%3]
+				env := base.Clone()
+				a := memstore.NewActor("committer")
+				kind := ""
+				a.SetFault(func(c memstore.Call) error {
+					if c.Index == k {
+						kind = c.Store + "." + c.Op
+						return memstore.ErrInjected
+					}
+					return nil
+				})
+				dm, cerr := env.Commit(a, "r", d.DiamondID, mode)
+				res.Stat("commits_under_a_store_fault", 1)
+				res.Seen("faulted_call_kinds", kind)
+				if cerr != nil {
+					res.Stat("commits_reporting_the_fault", 1)
+					continue
+				}
+				o := outcome{arrival: []string{"faulted:" + kind}, entries: map[string]model.BundleEntry{}}
+				_, ents, err := env.Entries(nil, "r", dm.BundleID)
+				if err != nil {
+					res.Violate("committed-bundle-unreadable-after-fault", string(mode), "commit returned nil under a fault on %s (call %d of %d) but its bundle does not read back: %v", kind, k, ncalls, err)
+					break
+				}
+				for _, e := range ents {
+					o.entries[e.NameWithPath] = e
+				}
+				reference(mode, o)
+				if len(res.Violations) > 0 {
+					break
+				}
+			}
+		}
+	}
 	var ref string
 	for m, v := range mains {
 		if ref == "" {
